@@ -41,8 +41,8 @@ THEOREMS = {
     'C20_tables_agree': 'every text the model hard-codes equals the text regenerated from the source on this run (Gen/AuxTables.lean): the regular expression (pattern built from the model\'s alternation; flags = re.UNICODE only), the five AuxDataError messages, the order of the two fatal checks, the location prefix of __str__, the get_context marker, the message format of pybtex.io._open, the WARNING/ERROR prefixes, the split separator, the suffix of the default reader [kernel-evaluated table comparison]',
     'C20_open_unicode': 'pybtex.io.open_unicode as the reader uses it, for every file system (regular files, directories, absent names, paths through files) and every kpsewhich: an existing regular file is opened itself and kpsewhich is not consulted; otherwise a non-empty answer is opened instead; no or empty answer: the open fails; every failure is "unable to open <name AS WRITTEN>. <strerror of ENOENT/EISDIR/ENOTDIR>" [case analysis of the model of _open/_open_existing]',
     'C20_reports_located_io': 'C20_reports_located over the file system as pybtex.io presents it: every report of a closed document names the file as written and the line n>=1 of the regular file that was really read (the name itself, or the kpsewhich answer when the name is no regular file); that line stripped is the text shown and is the causing command',
-    'C20_modes': 'report_error through the C16 model Errors.report where the code calls it: the reader in capture mode and in non-strict mode IS parse (all C20 theorems hold for both; channel = captured list resp. warnings printed, exit code 2 iff any); in strict mode a report is raised as it stands with nothing collected. NOT proved: that the error raised in strict mode is the first report of the capture reading (checked on every generated document)',
-    'C20_make_bibliography': 'all of Engine.make_bibliography, hypothesis: mode is not strict: unknown reader name fails before anything is read; otherwise it is makeBibliographyArgs (C20_engine_consumes) with THAT reader\'s suffix and the explicit style (also the empty one), output_filename = os.path.splitext(aux)[0], add_output_suffix = True',
+    'C20_modes': 'report_error through the C16 model Errors.report where the code calls it: the reader in capture mode and in non-strict mode IS parse (all C20 theorems hold for both; channel = captured list resp. warnings printed, exit code 2 iff any); in strict mode a report is raised as it stands with nothing collected. NOT proved: that the error raised in strict mode is the first report of the capture reading (checked on every generated document) ["error_code 2 iff something was printed" is by definition of Aux.errorCode / Mode.errState, which recompute it from the channel; Errors.report\'s own error_code is not threaded through the parse; the content is parseG = parse by induction]',
+    'C20_make_bibliography': "[model wiring + C20_modes: unfolds Model/AuxFileIO.makeBibliography; tie = op auxio] all of Engine.make_bibliography, hypothesis: mode is not strict: unknown reader name fails before anything is read; otherwise it is makeBibliographyArgs (C20_engine_consumes) with THAT reader's suffix and the explicit style (also the empty one), output_filename = os.path.splitext(aux)[0], add_output_suffix = True",
     'C20_engine_consumes': 'Engine.make_bibliography hands format_from_files exactly the denotation: first \\bibdata names + reader suffix, first \\bibstyle (or the explicit style), the citations in reading order with repeats; a fatal problem of the document is raised unchanged',
 }
 RULE = ('ES: every top-level document of <=4 (quick) / <=5 (thorough) lines over a 13-line alphabet with a fixed two-level '
